@@ -52,9 +52,9 @@ def leftsibling(node):
     >>> print(util.leftsibling(joe))
     Node('/Dan/Jan')
     """
-    if node.parent:
+    if node.parent is not None:
         pchildren = node.parent.children
-        idx = pchildren.index(node)
+        idx = _index(pchildren, node)
         if idx:
             return pchildren[idx - 1]
     return None
@@ -78,12 +78,19 @@ def rightsibling(node):
     >>> print(util.rightsibling(joe))
     None
     """
-    if node.parent:
+    if node.parent is not None:
         pchildren = node.parent.children
-        idx = pchildren.index(node)
+        idx = _index(pchildren, node)
         try:
             return pchildren[idx + 1]
         except IndexError:
             return None
     else:
         return None
+
+
+def _index(children, node):
+    for idx, child in enumerate(children):
+        if child is node:
+            return idx
+    raise ValueError(node)  # pragma: no cover
